@@ -32,21 +32,44 @@ func (e *AccessorExpr) Evaluate(engine *Engine, input interface{}, args []*State
 
 	// If it is a slice we need to Evaluate each one.
 	if in.Kind() == reflect.Slice {
+		var returnType reflect.Type
 		t := TypeOfSliceElement(input)
-		if t.Kind() == reflect.Ptr {
-			t = t.Elem()
+		if t != nil && t.Kind() != reflect.Interface {
+			if t.Kind() == reflect.Ptr {
+				t = t.Elem()
+			}
+
+			returnType = e.getReturnType(accessor, reflect.New(t).Interface())
 		}
-		returnType := e.getReturnType(accessor, reflect.New(t).Interface())
 
-		results := reflect.MakeSlice(reflect.SliceOf(returnType), 0, 0)
-
+		values := []interface{}{}
 		for i := 0; i < in.Len(); i++ {
 			result, err := e.Evaluate(engine, in.Index(i).Interface(), nil)
 			if err != nil {
 				return nil, err
 			}
 
-			results = reflect.Append(results, reflect.ValueOf(result))
+			values = append(values, result)
+		}
+
+		// The elements of some slices (like gedcom.Nodes, which is what
+		// NodesWithTagPath returns) are interfaces. What the accessor returns
+		// is only known for each element then: when they all return the same
+		// type the result is a slice of that type, like it is for any other
+		// slice.
+		if returnType == nil {
+			returnType = commonType(values)
+		}
+
+		results := reflect.MakeSlice(reflect.SliceOf(returnType), 0, len(values))
+
+		for _, value := range values {
+			if value == nil {
+				results = reflect.Append(results, reflect.Zero(returnType))
+				continue
+			}
+
+			results = reflect.Append(results, reflect.ValueOf(value))
 		}
 
 		return results.Interface(), nil
@@ -60,6 +83,32 @@ func (e *AccessorExpr) Evaluate(engine *Engine, input interface{}, args []*State
 	}
 
 	return input, nil
+}
+
+// commonType returns the type that all of the values have. It is interface{}
+// when they do not all have the same type (or there are none).
+func commonType(values []interface{}) reflect.Type {
+	var common reflect.Type
+
+	for _, value := range values {
+		if value == nil {
+			continue
+		}
+
+		t := reflect.TypeOf(value)
+		if common != nil && common != t {
+			common = nil
+			break
+		}
+
+		common = t
+	}
+
+	if common == nil {
+		return reflect.TypeOf((*interface{})(nil)).Elem()
+	}
+
+	return common
 }
 
 func (e *AccessorExpr) evaluateAccessor(accessor string, input interface{}) (r interface{}, err error) {
